@@ -1474,6 +1474,10 @@ def shape_variant(rng, pts, name=None):
         return name, np.zeros((0, 3)), 0
     if name == 'empty3':
         return name, np.zeros((2, 0, 3)), 0
+    if name == 'f32-array':              # single-precision array: the points must be float32 numbers
+        arr = np.array(pts, dtype=np.float32)
+        assert np.array_equal(arr.astype(float), np.array(pts, dtype=float)), 'f32 variant needs float32-representable points'
+        return name, arr, n
     if name.startswith('int-'):          # python ints / integer dtype: the points must be integer-valued
         ip = [[int(x) for x in p] for p in pts]
         assert all(float(a) == b for p, q in zip(ip, pts) for a, b in zip(p, q)), 'int variant needs integer-valued points'
@@ -2184,15 +2188,23 @@ def _compare(ctx, sc, line, kind, impl, info, out, state):
             bad(f'{kind}:shape', f'{kind}({info["variant"]}) returned {impl}')
             return
         V = state.get('vects')
-        # orthogonal dyadic cell, dyadic origin and point: every operation of Plane.below is exact in doubles
-        orth = bool(info['exact'] and V and all(V[k] == 0 for k in (1, 2, 3, 5, 6, 7))
-                    and all(_dyadic(x) for x in list(V) + list(state['origin']) + list(info['point'])))
-        if not orth:
+        # dyadic cell, origin and point, plane normal parallel to a Cartesian axis: that half-space test is exact in doubles
+        # (all faces of an orthogonal cell; the c-faces of every sheared LAMMPS-oriented cell; ...)
+        exact = [False] * 3
+        if info['exact'] and V:
+            Vm = [list(V[0:3]), list(V[3:6]), list(V[6:9])]
+            exact = _exact_faces(Vm, list(state['origin']), [[Fraction(x) for x in info['point']]])
+        if not all(exact):
             bound = _rel_tol(state, info['point'])
-            if float(margin) <= bound:
+            margins = [margin] * 3
+            if any(exact) and _det3(Vm) != 0:
+                inv = _inv3(Vm)
+                sr = [sum((Fraction(info['point'][i]) - state['origin'][i]) * inv[i][j] for i in range(3)) for j in range(3)]
+                margins = [min(abs(x), abs(1 - x)) for x in sr]
+            if any(not exact[i] and float(margins[i]) <= bound for i in range(3)):
                 ctx.extra['face_exempt'] = ctx.extra.get('face_exempt', 0) + 1
                 return
-        else:
+        if any(exact):
             ctx.extra['inside_exact'] = ctx.extra.get('inside_exact', 0) + 1
             if margin == 0:
                 ctx.extra['inside_exact_on_face'] = ctx.extra.get('inside_exact_on_face', 0) + 1
@@ -2605,10 +2617,83 @@ def _oracle_box(ctx, box, spec, pts, rels, viol, after_mutation=False, light=Fal
     ipts = [[float(round(x)) for x in p] for p in pts]
     irels = [[float(round(x)) for x in p] for p in rels]
     pick = int(math.fmod(abs(pts[0][0]) * 8 + abs(pts[0][1]) * 64, 1000.0)) if pts else 0       # a function of the input only (replayable)
+    # the same for single precision: the float32 neighbours of the points, handed over as a float32 array
+    f32 = lambda x: float(np.float32(x))                                  # noqa: E731
+    if all(abs(x) < 1e30 and (x == 0 or abs(x) > 1e-30) for p in pts + rels for x in p):
+        fpts, frels = [[f32(x) for x in p] for p in pts], [[f32(x) for x in p] for p in rels]
+        _oracle_points(ctx, box, V, o, Vinv, cond, vmax, rmax, fpts, frels, 'f32-array', viol, tag, spec, left or no_inside)
+    if (not light and pick % 6 == 0) or pick % 60 == 0:
+        _oracle_bulk(ctx, box, V, o, Vinv, cond, vmax, rmax, pts, rels, pick, viol, tag, left or no_inside)
     if any(abs(x) >= 2.0 ** 52 for p in ipts + irels for x in p):
         return          # no integer type holds such coordinates
     for name in ([INT_VARIANTS[pick % 5], INT_VARIANTS[(pick // 5 % 4 + 1 + pick) % 5]] if not light else [INT_VARIANTS[pick % 5]]):
         _oracle_points(ctx, box, V, o, Vinv, cond, vmax, rmax, ipts, irels, name, viol, tag, spec, left or no_inside)
+
+
+BULK_SIZES = [1031, 4099, 10007, 20011, 65537, 100003, 131101]
+
+
+def _oracle_bulk(ctx, box, V, o, Vinv, cond, vmax, rmax, pts, rels, pick, viol, tag, no_inside):
+    """arrays of MANY points: the given points repeated cyclically to thousands .. 131101 rows (2-d and 3-d leading shape).
+    Every row of the result must be what the same point gives in a small array — the conversions and inside/outside are
+    row-wise maps, whatever an implementation does about memory for large inputs (chunks, a different code path beyond some
+    size) — up to the rounding bound of the clause (numpy sums in another order for large arrays); for inside/outside a row
+    may differ only if the point is within that bound of a face.  The small-array values are judged by the exact clauses."""
+    np = _np()
+    N = BULK_SIZES[pick % len(BULK_SIZES)]
+    P, S = np.array(pts, dtype=float), np.array(rels, dtype=float)
+    idx = (np.arange(N) * 7 + pick) % len(pts)
+    omax = max([abs(float(x)) for x in o] + [0.0])
+    exact = _exact_faces(V, o, pts)
+    decided = []            # per point: is inside/outside decided beyond rounding?
+    ctol = []
+    for p in pts:
+        sr = [sum((_F(p[i]) - o[i]) * Vinv[i][j] for i in range(3)) for j in range(3)]
+        margins = [min(abs(x), abs(1 - x)) for x in sr]
+        bound = SAFETY * U * cond * 3 * (max(abs(x) for x in p) + omax + vmax) * rmax
+        decided.append(not any(not exact[i] and margins[i] <= bound for i in range(3)))
+        ctol.append(bound)
+    rtol_ = [8 * U * (3 * max(abs(x) for x in r) * vmax + omax) for r in rels]
+    jobs = [('position_cartesian_to_relative', box.position_cartesian_to_relative, P, np.array(ctol)),
+            ('position_relative_to_cartesian', box.position_relative_to_cartesian, S, np.array(rtol_))]
+    if not no_inside:
+        jobs += [('inside', box.inside, P, None), ('inside(inclusive=False)', lambda a: box.inside(a, inclusive=False), P, None),
+                 ('outside', box.outside, P, None), ('outside(inclusive=True)', lambda a: box.outside(a, inclusive=True), P, None)]
+    for what, f, A, tol in jobs:
+        for shape3 in (False, True):
+            big = A[idx]
+            if shape3:
+                if N % 7:
+                    big = big[:N - N % 7]
+                big = big.reshape(7, -1, 3)
+            keep = big.copy()
+            try:
+                small = np.asarray(f(A))
+                out = np.asarray(f(big))
+            except Exception as e:  # noqa
+                viol(f'bulk:{what.split("(")[0]}:raises', f'{what} of an array of shape {big.shape} raised {type(e).__name__}: {e} '
+                     f'({_state_repr(box)}){tag}', bulk=N)
+                break
+            ctx.stats.case('oracle:bulk:' + what.split('(')[0], (N, shape3, repr(pts[:1])))
+            if not np.array_equal(big, keep):
+                viol(f'input:modified:{what.split("(")[0]}', f'{what} modified the {big.shape} array it was given ({_state_repr(box)}){tag}', bulk=N)
+            rows = idx[:big.reshape(-1, 3).shape[0]]
+            want = small[rows]
+            if out.shape[:big.ndim - 1] != big.shape[:-1] or out.size != want.size:
+                viol(f'bulk:{what.split("(")[0]}:shape', f'{what} of an array of shape {big.shape} has shape {out.shape} ({_state_repr(box)}){tag}', bulk=N)
+                break
+            got = out.reshape(want.shape)
+            if tol is not None:
+                wrong = ~(np.abs(got - want) <= 2 * tol[rows][:, None])
+                wrong = wrong.any(axis=1)
+            else:
+                wrong = (got != want) & np.array(decided)[rows]
+            if wrong.any():
+                bad = int(np.argmax(wrong))
+                viol(f'bulk:{what.split("(")[0]}', f'{what} of {big.shape[:-1]} points (the points {pts if A is P else rels} repeated) differs '
+                     f'from the same points in a small array: row {bad} is the point {big.reshape(-1, 3)[bad].tolist()}, result '
+                     f'{got[bad].tolist()!r} in the large array, {want[bad].tolist()!r} in the small one ({_state_repr(box)}){tag}', bulk=N)
+                break
 
 
 def _snapshot(box, P, S):
@@ -2922,9 +3007,7 @@ def _oracle_points(ctx, box, V, o, Vinv, cond, vmax, rmax, pts, rels, vname, vio
                              f'{box.vects.tolist()}, origin {box.origin.tolist()}{tag}', variant=vname)
                         break
     # inside / outside against exact relative coordinates
-    orth = all(V[i][j] == 0 for i in range(3) for j in range(3) if i != j) \
-        and all(_dyadic(x, 3, 64) for r in V for x in r) and all(_dyadic(x, 3, 64) for x in o) \
-        and all(_dyadic(x) for p in pts for x in p)
+    exact = _exact_faces(V, o, pts)
     want_shape = np.asarray(arg, dtype=float).shape[:-1]
     for incl in (True, False):
         ins = call('inside', lambda a: box.inside(a, inclusive=incl), arg)
@@ -2953,12 +3036,16 @@ def _oracle_points(ctx, box, V, o, Vinv, cond, vmax, rmax, pts, rels, vname, vio
             continue
         for p, got in zip(pts[:used], ins.reshape(-1).tolist()):
             s = [sum((_F(p[i]) - o[i]) * Vinv[i][j] for i in range(3)) for j in range(3)]
-            margin = min(min(abs(x), abs(1 - x)) for x in s)
+            margins = [min(abs(x), abs(1 - x)) for x in s]
+            margin = min(margins)
             pm = max(abs(x) for x in p) + omax + vmax
-            bound = 0 if orth else SAFETY * U * cond * 3 * pm * rmax
+            bound = SAFETY * U * cond * 3 * pm * rmax
             ctx.stats.case('oracle:inside', (repr(p), incl, vname), nontrivial=True)
-            if not orth and margin <= bound:
+            # exempt: within the rounding bound of a face whose half-space test involves rounding at all
+            if any(not exact[i] and margins[i] <= bound for i in range(3)):
                 continue
+            if margin == 0:
+                ctx.stats.case('oracle:inside:on-face-exact', (repr(p), incl, vname, all(exact)))
             want = all((0 <= x <= 1) if incl else (0 < x < 1) for x in s)
             if bool(got) != want:
                 viol(f'inside:{"inclusive" if incl else "exclusive"}',
@@ -2966,6 +3053,22 @@ def _oracle_points(ctx, box, V, o, Vinv, cond, vmax, rmax, pts, rels, vname, vio
                      f'{[float(x) for x in s]} (distance to the nearest face {float(margin):.3g}) for vects {box.vects.tolist()}, '
                      f'origin {box.origin.tolist()}{tag}', variant=vname)
                 break
+
+
+def _exact_faces(V, o, pts):
+    """which of the three pairs of faces `inside` decides without rounding: cell, origin and points on the dyadic grid
+    (every product / sum of Plane.below is exact) and the un-normalised plane normal n = v_j x v_k parallel to a Cartesian
+    axis, so that n / |n| is exactly a signed unit vector and both inner products are single coordinates.  True for all faces
+    of an orthogonal cell, and e.g. for the two c-faces (z = zlo, z = zhi) of every sheared LAMMPS-oriented cell."""
+    if not (all(_dyadic(x, 3, 64) for r in V for x in r) and all(_dyadic(x, 3, 64) for x in o)
+            and all(_dyadic(x) for p in pts for x in p)):
+        return [False, False, False]
+    out = []
+    for i in range(3):
+        u, v = V[(i + 1) % 3], V[(i + 2) % 3]
+        n = [u[1] * v[2] - u[2] * v[1], u[2] * v[0] - u[0] * v[2], u[0] * v[1] - u[1] * v[0]]
+        out.append(sum(1 for x in n if x != 0) == 1)
+    return out
 
 
 def _container(vname):
